@@ -6,8 +6,10 @@ import (
 	"encoding/binary"
 	"encoding/hex"
 	"fmt"
+	"time"
 
 	"github.com/zmap/zcrypto/tls"
+	"verifharness/lib/obs"
 	"verifharness/lib/term"
 )
 
@@ -183,6 +185,147 @@ func runFmt(c *FmtCase, seed int64) (*finding, error) {
 		}
 		if !bytes.Equal(got, pt) || int(typ) != r.Typ {
 			return &finding{"format-decrypt", fmt.Sprintf("%s/%#04x record %d: decrypt returned type %d and %d bytes, sent type %d and %d bytes", c.RP.Cls, c.RP.Ver, i+1, typ, len(got), r.Typ, len(pt))}, nil
+		}
+	}
+	return nil, nil
+}
+
+// ---- sequence-number boundaries -----------------------------------------------------------------
+
+type SeqFmtRec struct {
+	Typ     int         `json:"typ"`
+	N       int         `json:"n"`
+	Num     []int       `json:"num"`   // the 8-octet sequence number the record must be protected with
+	Last    bool        `json:"last"`  // 2^64-1: the record may be refused; nothing may follow
+	After   []int       `json:"after"` // the sequence number afterwards
+	Binds   []Bind      `json:"binds"`
+	Options []FmtOption `json:"options"`
+}
+
+type SeqFmtCase struct {
+	RP     RP          `json:"rp"`
+	Suite  int         `json:"suite"`
+	KeyLen int         `json:"keyLen"`
+	IVLen  int         `json:"ivLen"`
+	Start  []int       `json:"start"`
+	Recs   []SeqFmtRec `json:"recs"`
+	Kind   string      `json:"kind,omitempty"`
+	Seed   int64       `json:"seed,omitempty"`
+}
+
+func seq8(a []int) (s [8]byte) {
+	for i := 0; i < 8 && i < len(a); i++ {
+		s[i] = byte(a[i])
+	}
+	return
+}
+
+// runSeqFmt: both halves are put at the boundary sequence number; every record the sender produces
+// must be the RFC encoding under that 8-octet number, the receiver must read it back, and both
+// sequence numbers must afterwards be the successor the specification computed.
+func runSeqFmt(c *SeqFmtCase, seed int64) (*finding, error) {
+	macLen := map[string]int{"sha1": 20, "sha256": 32, "": 0}[c.RP.Mach]
+	env := term.Env{}
+	var snd, rcv *tls.VerifHalfConn
+	var err error
+	if c.RP.Cls == "tls13" {
+		hl := 32
+		if c.RP.Suite13 == 4866 {
+			hl = 48
+		}
+		env["secret"] = fillVar(seed, "secret", hl)
+		if snd, err = tls.VerifNewHalfConnTLS13(uint16(c.Suite), env["secret"]); err != nil {
+			return nil, err
+		}
+		if rcv, err = tls.VerifNewHalfConnTLS13(uint16(c.Suite), env["secret"]); err != nil {
+			return nil, err
+		}
+	} else {
+		env["key"] = fillVar(seed, "key", c.KeyLen)
+		env["iv"] = fillVar(seed, "iv", c.IVLen)
+		env["mackey"] = fillVar(seed, "mackey", macLen)
+		if snd, err = tls.VerifNewHalfConn(uint16(c.RP.Ver), uint16(c.Suite), env["key"], env["iv"], env["mackey"], false); err != nil {
+			return nil, err
+		}
+		if rcv, err = tls.VerifNewHalfConn(uint16(c.RP.Ver), uint16(c.Suite), env["key"], env["iv"], env["mackey"], true); err != nil {
+			return nil, err
+		}
+	}
+	start := seq8(c.Start)
+	snd.SetSeq(start)
+	rcv.SetSeq(start)
+	rnd := &detRand{n: uint64(seed)}
+	where := func(i int) string {
+		return fmt.Sprintf("%s/%#04x at sequence number %x, record %d", c.RP.Cls, c.RP.Ver, start, i+1)
+	}
+	var observed [][]byte
+	for i, r := range c.Recs {
+		pt := fillVar(seed, fmt.Sprintf("pt%d", i+1), r.N)
+		env[fmt.Sprintf("pt%d", i+1)] = pt
+		hdr := []byte{byte(r.Typ), byte(wireVersion(c.RP.Ver) >> 8), byte(wireVersion(c.RP.Ver)), byte(r.N >> 8), byte(r.N)}
+		var rec []byte
+		var eerr error
+		o := obs.Guard(60*time.Second, func() { rec, eerr = snd.Encrypt(hdr, pt, rnd) })
+		if o.Timeout {
+			return nil, fmt.Errorf("encrypt timed out")
+		}
+		if o.Panic != "" || eerr != nil {
+			if r.Last {
+				return nil, nil // refusing to go beyond 2^64-1 is what "sequence numbers do not wrap" asks for
+			}
+			return &finding{"seq-refused", fmt.Sprintf("%s: encrypt failed (%v %s) although the sequence number can still grow", where(i), eerr, o.Panic)}, nil
+		}
+		observed = append(observed, rec)
+		for _, b := range r.Binds {
+			src := observed[b.Rec-1]
+			off := b.Off
+			if off < 0 {
+				off = len(src) + off
+			}
+			if off < 0 || off+b.N > len(src) {
+				return &finding{"seq-format", fmt.Sprintf("%s: too short (%d bytes) to carry its %s", where(i), len(src), b.Name)}, nil
+			}
+			env[b.Name] = src[off : off+b.N]
+		}
+		matched := false
+		for _, op := range r.Options {
+			want, err := term.Eval(&op.Term, env)
+			if err != nil {
+				return nil, fmt.Errorf("evaluating the demanded record: %v", err)
+			}
+			if bytes.Equal(want, rec) {
+				matched = true
+				break
+			}
+		}
+		if !matched {
+			return &finding{"seq-format", fmt.Sprintf("%s: the %d bytes %s... are not the RFC encoding under the 8-octet sequence number %x",
+				where(i), len(rec), hex.EncodeToString(rec[:min(len(rec), 16)]), seq8(r.Num))}, nil
+		}
+		if r.Last {
+			// produced at 2^64-1: then nothing may follow
+			var e2 error
+			o := obs.Guard(60*time.Second, func() { _, e2 = snd.Encrypt(hdr, pt, rnd) })
+			if o.Panic == "" && e2 == nil {
+				return &finding{"seq-wrap", fmt.Sprintf("%s: a further record was protected after sequence number 2^64-1", where(i))}, nil
+			}
+			return nil, nil
+		}
+		if got := snd.Seq(); got != seq8(r.After) {
+			return &finding{"seq-next", fmt.Sprintf("%s: the sender's sequence number afterwards is %x, must be %x", where(i), got, seq8(r.After))}, nil
+		}
+		var got []byte
+		var typ uint8
+		var derr error
+		o = obs.Guard(60*time.Second, func() { got, typ, _, derr = rcv.Decrypt(rec) })
+		if o.Panic != "" || derr != nil {
+			return &finding{"seq-decrypt", fmt.Sprintf("%s: decrypt of the untouched record failed: %v %s", where(i), derr, o.Panic)}, nil
+		}
+		if !bytes.Equal(got, pt) || int(typ) != r.Typ {
+			return &finding{"seq-decrypt", fmt.Sprintf("%s: decrypt returned type %d and %d bytes, sent type %d and %d bytes", where(i), typ, len(got), r.Typ, len(pt))}, nil
+		}
+		if gs := rcv.Seq(); gs != seq8(r.After) {
+			return &finding{"seq-next", fmt.Sprintf("%s: the receiver's sequence number afterwards is %x, must be %x", where(i), gs, seq8(r.After))}, nil
 		}
 	}
 	return nil, nil
